@@ -494,7 +494,7 @@ func enclosingRangeLoop(b *ssa.BasicBlock) *loopInfo {
 					continue
 				}
 				if iff, ok := x.Instrs[len(x.Instrs)-1].(*ssa.If); ok {
-					if cmp, ok := iff.Cond.(*ssa.BinOp); ok && cmp.Op == token.LSS && cmp.X == next {
+					if cmp, ok := iff.Cond.(*ssa.BinOp); ok && cmp.Op == token.LSS && (cmp.X == next || cmp.X == ssa.Value(phi)) {
 						l.bound = cmp.Y
 					}
 				}
@@ -1194,11 +1194,15 @@ func ruleSelect(c *Ctx) {
 		r1, ok1 := refuses(1)
 		rMax, ok2 := refuses(65535)
 		rOver, ok3 := refuses(65536)
+		for _, n := range []int64{65537, 70000, 1 << 17, 1<<31 - 1, 1 << 40} {
+			r, ok := refuses(n)
+			rOver, ok3 = rOver && r, ok3 && ok
+		}
 		switch {
 		case !ok1 || !ok2 || !ok3:
 			c.undec(fname(ctor)+"|upper-bound", c.pos(ctor.Pos()), fname(ctor), "the constructor does not fold for 1 / 65535 / 65536 tracks")
 		default:
-			c.check(!r1 && !rMax && rOver, fname(ctor)+"|upper-bound", c.pos(ctor.Pos()), fname(ctor), "1..65535 tracks accepted, 65536 refused", fmt.Sprintf("NewTrackNoSelector: 1 refused=%v, 65535 refused=%v, 65536 refused=%v; the SMF header stores the number of tracks in 16 bits, so with --track 65536 and above `crd write` exits 0 with a header that declares (N mod 65536) tracks in front of N track chunks", r1, rMax, rOver))
+			c.check(!r1 && !rMax && rOver, fname(ctor)+"|upper-bound", c.pos(ctor.Pos()), fname(ctor), "1..65535 tracks accepted; 65536, 65537, 70000, 2^17, 2^31-1, 2^40 refused", fmt.Sprintf("NewTrackNoSelector: 1 refused=%v, 65535 refused=%v, all of 65536 / 65537 / 70000 / 2^17 / 2^31-1 / 2^40 refused=%v; the SMF header stores the number of tracks in 16 bits, so with --track 65536 and above `crd write` exits 0 with a header that declares (N mod 65536) tracks in front of N track chunks", r1, rMax, rOver))
 		}
 	} else {
 		c.missing("midix.NewTrackNoSelector")
@@ -1233,6 +1237,19 @@ func ruleSelect(c *Ctx) {
 				if a.leaf.v == ssa.Value(ns.Params[0]) {
 					sawParam = true
 					continue
+				}
+				// max(trackNum, 0) is the same clamp
+				if call, ok := a.leaf.v.(*ssa.Call); ok && len(call.Call.Args) == 2 {
+					if b, ok := call.Call.Value.(*ssa.Builtin); ok && b.Name() == "max" {
+						x, y := call.Call.Args[0], call.Call.Args[1]
+						if _, isK := constInt(x); isK {
+							x, y = y, x
+						}
+						if k, isK := constInt(y); isK && k <= 0 && tr.trace(a.leaf.with(x)).v == ssa.Value(ns.Params[0]) {
+							sawParam = true
+							continue
+						}
+					}
 				}
 				k, isK := constInt(a.leaf.v)
 				lowClamp := false
@@ -1603,7 +1620,6 @@ func ruleTrackCount(c *Ctx) {
 	}
 	c.check(problem == "", name, c.pos(fn.Pos()), name, "every track 0..Len()-1 serialised; division = clock", name+": "+problem)
 }
-
 
 // restAccumulatesInline: fn is a single block that stores pending + ticks(value parameter) into the pending field and nothing else.
 func (m *writerModel) restAccumulatesInline(fn *ssa.Function) bool {
